@@ -306,8 +306,60 @@ func (r *Runner) GraphProj() {
 		}
 		g["p"] = p.Name
 		g["R"] = p.DegreeBound
+		g["hasprev"], g["prev"], g["touched"], g["ok"], g["kind"] = 0, []any{}, []int{}, 1, ""
 		r.TW.Emit("Graph", g)
 	}
+}
+
+// GraphStepBatch applies b and logs, for every graph index, the persisted
+// graph before and after it, whether the batch was accepted and the node ids
+// of the points an update batch named (the transition is judged, not only the
+// state reached).
+func (r *Runner) GraphStepBatch(b Batch) string {
+	prev := map[string]M{}
+	for _, p := range r.Cfg.Props {
+		if p.Type != models.IndexTypeVectorVamana {
+			continue
+		}
+		if g, err := graphOf(r.Shard.VerifDB(), p); err == nil {
+			prev[p.Name] = g
+		}
+	}
+	nodeOf := map[int]int{}
+	if pr, err := Projection(r.Shard.VerifDB()); err == nil {
+		if ns, ok := pr["nodes"].([][2]int); ok {
+			for _, x := range ns {
+				nodeOf[x[0]] = x[1]
+			}
+		}
+	}
+	err := r.Apply(b)
+	touched := []int{}
+	if b.Kind == "update" {
+		for _, pt := range b.Pts {
+			if n, ok := nodeOf[pt.ID]; ok {
+				touched = append(touched, n)
+			}
+		}
+	}
+	for _, p := range r.Cfg.Props {
+		if p.Type != models.IndexTypeVectorVamana {
+			continue
+		}
+		g, gerr := graphOf(r.Shard.VerifDB(), p)
+		if gerr != nil {
+			r.obsErr("Graph", gerr)
+			continue
+		}
+		g["p"] = p.Name
+		g["R"] = p.DegreeBound
+		g["hasprev"], g["prev"], g["touched"], g["ok"], g["kind"] = 0, []any{}, touched, b2i(err == nil), b.Kind
+		if pg, ok := prev[p.Name]; ok {
+			g["hasprev"], g["prev"] = 1, pg["nodes"]
+		}
+		r.TW.Emit("Graph", g)
+	}
+	return b.Kind
 }
 
 func graphOf(db diskstore.DiskStore, p Prop) (M, error) {
